@@ -312,7 +312,7 @@ impl Compiler {
                     OpCode::SetLocal
                 };
                 self.emit_opcode(op);
-                self.emit_u16(symbol.index);
+                self.emit_u16(narrow(symbol.index)?);
             }
             Stmt::Return(expr) => {
                 if !self.symbols.in_function() {
@@ -348,7 +348,7 @@ impl Compiler {
                     )),
                 }?;
                 self.emit_opcode(OpCode::Jump);
-                self.emit_u16(pos.try_into().unwrap());
+                self.emit_u16(narrow(pos)?);
             }
         }
 
@@ -399,7 +399,7 @@ impl Compiler {
             }
         };
 
-        let idx_constant = self.add_constant(Object::int(const_value));
+        let idx_constant = self.add_constant(Object::int(const_value))?;
         let symbol = self.symbols.resolve(varname);
         match symbol {
             Some(symbol) => {
@@ -421,8 +421,9 @@ impl Compiler {
                     }
                 };
 
+                let idx_local = narrow(symbol.index)?;
                 self.emit_opcode(opcode);
-                self.emit_u16(symbol.index);
+                self.emit_u16(idx_local);
                 self.emit_u16(idx_constant);
             }
             None => {
@@ -443,18 +444,18 @@ impl Compiler {
             }
             Expr::Float { value } => {
                 let obj = Object::float(*value, &mut self.gc);
-                let idx = self.add_constant(obj);
+                let idx = self.add_constant(obj)?;
                 self.emit_opcode(OpCode::Const);
                 self.emit_u16(idx);
             }
             Expr::Int { value } => {
-                let idx = self.add_constant(Object::int(*value));
+                let idx = self.add_constant(Object::int(*value))?;
                 self.emit_opcode(OpCode::Const);
                 self.emit_u16(idx);
             }
             Expr::String { value } => {
                 let obj = Object::string(value.as_str(), &mut self.gc);
-                let idx = self.add_constant(obj);
+                let idx = self.add_constant(obj)?;
                 self.emit_opcode(OpCode::Const);
                 self.emit_u16(idx);
             }
@@ -468,7 +469,7 @@ impl Compiler {
                             OpCode::GetLocal
                         };
                         self.emit_opcode(opcode);
-                        self.emit_u16(symbol.index);
+                        self.emit_u16(narrow(symbol.index)?);
                     }
                     None => {
                         return Err(Error::ReferenceError(format!(
@@ -522,16 +523,16 @@ impl Compiler {
                         match symbol.scope {
                             Scope::Global => {
                                 self.emit_opcode(OpCode::SetGlobal);
-                                self.emit_u16(symbol.index);
+                                self.emit_u16(narrow(symbol.index)?);
                                 self.emit_opcode(OpCode::GetGlobal);
-                                self.emit_u16(symbol.index);
+                                self.emit_u16(narrow(symbol.index)?);
                             }
 
                             Scope::Local => {
                                 self.emit_opcode(OpCode::SetLocal);
-                                self.emit_u16(symbol.index);
+                                self.emit_u16(narrow(symbol.index)?);
                                 self.emit_opcode(OpCode::GetLocal);
-                                self.emit_u16(symbol.index);
+                                self.emit_u16(narrow(symbol.index)?);
                             }
                         }
                     }
@@ -588,7 +589,7 @@ impl Compiler {
 
                 self.change_jump_operand_at(
                     pos_jump_if_false,
-                    self.instructions.len().try_into().unwrap(),
+                    narrow(self.instructions.len())?,
                 );
 
                 if let Some(alternative) = alternative {
@@ -598,7 +599,7 @@ impl Compiler {
                 }
 
                 // Change operand of last JumpIfFalse opcode to where we're currently at
-                self.change_jump_operand_at(pos_jump, self.instructions.len().try_into().unwrap());
+                self.change_jump_operand_at(pos_jump, narrow(self.instructions.len())?);
             }
             Expr::While { condition, body } => {
                 // TODO: Can we get rid of this now that empty block statement emit a NULL?
@@ -616,18 +617,18 @@ impl Compiler {
 
                 // emit jump instruction to loop condition
                 self.emit_opcode(OpCode::Jump);
-                self.emit_u16(pos_before_condition.try_into().unwrap());
+                self.emit_u16(narrow(pos_before_condition)?);
 
                 // Update jump statement for when initial condition evaluated to false (should skip over entire loop)
                 self.change_jump_operand_at(
                     pos_jump_if_false,
-                    self.instructions.len().try_into().unwrap(),
+                    narrow(self.instructions.len())?,
                 );
 
                 // Update jump statements for every break statement inside this loop
                 let ctx = self.loop_contexts.pop().unwrap();
                 for ip in ctx.break_instructions {
-                    self.change_jump_operand_at(ip, self.instructions.len().try_into().unwrap());
+                    self.change_jump_operand_at(ip, narrow(self.instructions.len())?);
                 }
             }
             Expr::Function {
@@ -665,17 +666,17 @@ impl Compiler {
                     self.emit_opcode(OpCode::Return);
                 }
 
-                self.change_jump_operand_at(pos_jump, self.instructions.len().try_into().unwrap());
+                self.change_jump_operand_at(pos_jump, narrow(self.instructions.len())?);
 
                 // Switch back to previous scope again
                 let num_locals = self.symbols.leave_context();
 
                 // Create function object and store as constant
                 let obj = Object::function(
-                    pos_start_function.try_into().unwrap(),
-                    num_locals.try_into().unwrap(),
+                    narrow(pos_start_function)?,
+                    narrow(num_locals)?,
                 );
-                let idx = self.add_constant(obj);
+                let idx = self.add_constant(obj)?;
                 self.emit_opcode(OpCode::Const);
                 self.emit_u16(idx);
 
@@ -687,7 +688,7 @@ impl Compiler {
                         OpCode::SetLocal
                     };
                     self.emit_opcode(opcode);
-                    self.emit_u16(symbol.index);
+                    self.emit_u16(narrow(symbol.index)?);
 
                     self.emit_opcode(OpCode::Const);
                     self.emit_u16(idx);
@@ -702,13 +703,13 @@ impl Compiler {
                     if let Some(builtin) = builtins::resolve(name) {
                         self.emit_opcode(OpCode::CallBuiltin);
                         self.emit_u8(builtin as u8);
-                        self.emit_u8(arguments.len().try_into().unwrap());
+                        self.emit_u8(narrow(arguments.len())?);
                         break 'compile_call;
                     }
                 }
                 self.compile_expression(left)?;
                 self.emit_opcode(OpCode::Call);
-                self.emit_u8(arguments.len().try_into().unwrap());
+                self.emit_u8(narrow(arguments.len())?);
             }
 
             Expr::Array { values } => {
@@ -716,7 +717,7 @@ impl Compiler {
                     self.compile_expression(v)?;
                 }
                 self.emit_opcode(OpCode::Array);
-                self.emit_u16(values.len().try_into().unwrap());
+                self.emit_u16(narrow(values.len())?);
             }
 
             Expr::Index { left, index } => {
@@ -729,20 +730,30 @@ impl Compiler {
         Ok(())
     }
 
-    fn add_constant(&mut self, obj: Object) -> u16 {
+    fn add_constant(&mut self, obj: Object) -> Result<u16, Error> {
         // re-use already defined constants
         if let Some(pos) = self
             .constants
             .iter()
             .position(|c| c.tag() == obj.tag() && c == &obj)
         {
-            return pos.try_into().unwrap();
+            return narrow(pos);
         }
 
         let idx = self.constants.len();
         self.constants.push(obj);
-        idx.try_into().unwrap()
+        narrow(idx)
     }
+}
+
+/// Converts a position or a count to the (smaller) integer type that is used for it in the bytecode
+/// This fails if the program is too big to be represented in bytecode
+fn narrow<T: TryFrom<usize>>(value: usize) -> Result<T, Error> {
+    T::try_from(value).map_err(|_| {
+        Error::SyntaxError(format!(
+            "programma te groot: de waarde {value} past niet in de bytecode"
+        ))
+    })
 }
 
 /// We use a string representation of OpCodes to make testing a little easier
